@@ -21,37 +21,7 @@ Section Refine.
   Definition below (p : N) : Prop := match limit with Some L => (p < L)%N | None => True end.
   Definition upto (p : N) : Prop := match limit with Some L => (p <= L)%N | None => True end.
 
-  Hypothesis gen_at : forall p, below p -> sc_gen K (at_block p) = (at_block (p + 1), KB p).
-  Hypothesis gen_closed : forall p, exists p', fst (sc_gen K (at_block p)) = at_block p'.
-  Hypothesis par_at : forall p, sc_gen_par K (at_block p) = gen_n K (sc_w K) (at_block p).
-  Hypothesis rem_at : forall p, upto p ->
-    sc_remaining K (at_block p) = match limit with Some L => to_usize (L - p) | None => None end.
   Hypothesis kb_len : forall p, length (KB p) = bs.
-
-  (* ---- the core ---- *)
-  Lemma gen_n_at n : forall p, upto (p + N.of_nat n) ->
-    gen_n K n (at_block p) = (at_block (p + N.of_nat n), map (fun j => KB (p + N.of_nat j)) (seq 0 n)).
-  Proof.
-    induction n as [|n IH]; intros p Hu.
-    - cbn [gen_n seq map]. now rewrite N.add_0_r.
-    - cbn [gen_n]. rewrite gen_at.
-      2:{ unfold below, upto in *. destruct limit; auto. lia. }
-      rewrite IH.
-      2:{ unfold upto in *. destruct limit; auto. lia. }
-      cbn [seq map]. rewrite N.add_0_r. f_equal.
-      + f_equal. lia.
-      + f_equal. rewrite <- seq_shift, map_map. apply map_ext. intros j. f_equal. lia.
-  Qed.
-
-  Lemma ks_blocks_at n p : upto (p + N.of_nat n) ->
-    ks_blocks K n (at_block p) = (at_block (p + N.of_nat n), map (fun j => KB (p + N.of_nat j)) (seq 0 n)).
-  Proof.
-    intros Hu. rewrite ks_blocks_gen_n with (P := fun st => exists p, st = at_block p).
-    - now apply gen_n_at.
-    - intros st [q ->]. apply gen_closed.
-    - intros st [q ->]. apply par_at.
-    - eauto.
-  Qed.
 
   (* ---- the keystream read byte by byte from a position ---- *)
   Fixpoint take (n : nat) (nb : N) (pos : nat) : list N :=
@@ -158,6 +128,38 @@ Section Refine.
 
   Lemma adv_snd_indep n : forall nb nb' p, snd (adv n nb p) = snd (adv n nb' p).
   Proof. induction n; intros; cbn [adv]; auto. destruct (p <? bs); auto. Qed.
+
+  Hypothesis gen_at : forall p, below p -> sc_gen K (at_block p) = (at_block (p + 1), KB p).
+  Hypothesis gen_closed : forall p, exists p', fst (sc_gen K (at_block p)) = at_block p'.
+  Hypothesis par_at : 1 < sc_w K -> forall p, sc_gen_par K (at_block p) = gen_n K (sc_w K) (at_block p).
+  Hypothesis rem_at : forall p, upto p ->
+    sc_remaining K (at_block p) = match limit with Some L => to_usize (L - p) | None => None end.
+
+  (* ---- the core ---- *)
+  Lemma gen_n_at n : forall p, upto (p + N.of_nat n) ->
+    gen_n K n (at_block p) = (at_block (p + N.of_nat n), map (fun j => KB (p + N.of_nat j)) (seq 0 n)).
+  Proof.
+    induction n as [|n IH]; intros p Hu.
+    - cbn [gen_n seq map]. now rewrite N.add_0_r.
+    - cbn [gen_n]. rewrite gen_at.
+      2:{ unfold below, upto in *. destruct limit; auto. lia. }
+      rewrite IH.
+      2:{ unfold upto in *. destruct limit; auto. lia. }
+      cbn [seq map]. rewrite N.add_0_r. f_equal.
+      + f_equal. lia.
+      + f_equal. rewrite <- seq_shift, map_map. apply map_ext. intros j. f_equal. lia.
+  Qed.
+
+  Lemma ks_blocks_at n p : upto (p + N.of_nat n) ->
+    ks_blocks K n (at_block p) = (at_block (p + N.of_nat n), map (fun j => KB (p + N.of_nat j)) (seq 0 n)).
+  Proof.
+    intros Hu. rewrite ks_blocks_gen_n with (P := fun st => exists p, st = at_block p).
+    - now apply gen_n_at.
+    - intros st [q ->]. apply gen_closed.
+    - intros Hw st [q ->]. now apply par_at.
+    - eauto.
+  Qed.
+
 
   (* ---- the wrapper ---- *)
   Definition WInv (nb : N) (wst : wrapper St) : Prop :=
@@ -385,4 +387,200 @@ Section Refine.
           -- replace (nb + N.of_nat m + 1 - 1)%N with (nb + N.of_nat m)%N by lia. reflexivity.
         * replace n with (rem + m * bs + t) by lia. rewrite adv_app, Hadv2, A3. reflexivity.
   Qed.
+
+  (* ================= C08: any way of cutting the stream into calls ================= *)
+  (* a piece = (in place?, input, output buffer) *)
+  Definition piece := (bool * list N * list N)%type.
+  Definition piece_src (p : piece) : list N := let '(al, i, o) := p in if al then o else i.
+  Definition piece_ok (p : piece) : Prop := let '(al, i, o) := p in length i = length o /\ (al = true -> i = o).
+
+  Fixpoint apply_all (wst : wrapper St) (ps : list piece) : outcome (wrapper St * list N) :=
+    match ps with
+    | [] => Ok (wst, [])
+    | (al, i, o) :: ps' =>
+        do r <- try_apply K wst al i o;
+        let '(w1, o1) := r in
+        do r2 <- apply_all w1 ps';
+        let '(w2, o2) := r2 in Ok (w2, o1 ++ o2)
+    end.
+
+  Lemma fits_split nb pos a b : fits nb pos (a + b) ->
+    fits nb pos a /\ fits (fst (adv a nb pos)) (snd (adv a nb pos)) b.
+  Proof. clear par_at.
+    unfold fits. destruct limit as [L|]; [|tauto]. intros H.
+    rewrite cbr_app in H. rewrite adv_cbr, (adv_snd_indep a nb 0%N). lia.
+  Qed.
+
+  Theorem apply_all_spec : forall ps nb wst, WInv nb wst -> Forall piece_ok ps ->
+    let srcs := concat (map piece_src ps) in
+    (N.of_nat (length srcs) <= usize_max)%N -> fits nb (wr_pos wst) (length srcs) ->
+    exists wst', apply_all wst ps = Ok (wst', xorb srcs (take (length srcs) nb (wr_pos wst))) /\
+                 WInv (fst (adv (length srcs) nb (wr_pos wst))) wst' /\
+                 wr_pos wst' = snd (adv (length srcs) nb (wr_pos wst)).
+  Proof.
+    induction ps as [|[[al i] o] ps IH]; intros nb wst HI Hok srcs Hus Hfit.
+    - exists wst. split; [reflexivity|]. split; [exact HI | reflexivity].
+    - inversion Hok as [|? ? Hpk Hok']; subst. cbn [piece_ok] in Hpk. destruct Hpk as [Hlen Hal]. subst srcs. cbn [map concat piece_src] in *.
+      set (src := if al then o else i) in *. set (rest := concat (map piece_src ps)) in *.
+      assert (Hsl : length src = length o) by (subst src; destruct al; auto).
+      rewrite app_length in *. rewrite Hsl in *.
+      destruct (fits_split nb (wr_pos wst) (length o) (length rest) Hfit) as [Hf1 Hf2].
+      destruct (try_apply_spec nb wst al i o HI Hlen Hal ltac:(lia)) as [Hsucc _].
+      destruct (Hsucc Hf1) as (w1 & E1 & HI1 & Hp1).
+      cbn [apply_all]. rewrite E1. cbn [obind].
+      rewrite <- Hp1 in Hf2.
+      destruct (IH _ w1 HI1 Hok' ltac:(fold rest; lia) Hf2) as (w2 & E2 & HI2 & Hp2). fold rest in E2, HI2, Hp2.
+      rewrite E2. cbn [obind]. exists w2. split; [|split].
+      + f_equal. f_equal. rewrite take_app. fold src.
+        rewrite xorb_app by (rewrite take_length; auto).
+        rewrite Hp1. destruct (adv (length o) nb (wr_pos wst)); reflexivity.
+      + rewrite adv_app. rewrite Hp1 in HI2. destruct (adv (length o) nb (wr_pos wst)); exact HI2.
+      + rewrite adv_app. rewrite Hp1 in Hp2. destruct (adv (length o) nb (wr_pos wst)); exact Hp2.
+  Qed.
+
+  (* the C08 statement: pieces fed in order = one call on the whole string (in place) *)
+  Corollary chunking_independent ps nb wst : WInv nb wst -> Forall piece_ok ps ->
+    let whole := concat (map piece_src ps) in
+    (N.of_nat (length whole) <= usize_max)%N -> fits nb (wr_pos wst) (length whole) ->
+    exists w1 w2 out, apply_all wst ps = Ok (w1, out) /\ try_apply K wst true whole whole = Ok (w2, out) /\
+                      wr_pos w1 = wr_pos w2 /\ wr_core w1 = wr_core w2.
+  Proof.
+    intros HI Hok whole Hus Hfit.
+    destruct (apply_all_spec ps nb wst HI Hok Hus Hfit) as (w1 & E1 & (Hc1 & _) & Hp1).
+    destruct (try_apply_spec nb wst true whole whole HI eq_refl (fun _ => eq_refl) Hus) as [Hs _].
+    destruct (Hs Hfit) as (w2 & E2 & (Hc2 & _) & Hp2).
+    exists w1, w2, (xorb whole (take (length whole) nb (wr_pos wst))).
+    split; [exact E1|]. split; [exact E2|]. split; [rewrite Hp1, Hp2; reflexivity | rewrite Hc1, Hc2; reflexivity].
+  Qed.
+
+  (* ================= C11: the limit in bytes ================= *)
+  (* abstract byte position of (nb, pos): nb*bs - (bs - pos) *)
+  Lemma fits_bytes nb pos n L : limit = Some L -> (nb <= L)%N -> 1 <= pos <= bs ->
+    (fits nb pos n <-> (nb * N.of_nat bs + N.of_nat n <= L * N.of_nat bs + N.of_nat (bs - pos))%N).
+  Proof. clear par_at.
+    intros HL Hnb Hp. unfold fits. rewrite HL. rewrite (cbr_formula n pos Hp).
+    destruct (Nat.leb_spec n (bs - pos)) as [Hle|Hgt].
+    - split; intros _; [|lia]. assert (nb * N.of_nat bs <= L * N.of_nat bs)%N by (apply N.mul_le_mono_r; auto). lia.
+    - set (d := n - (bs - pos)). set (c := (d + bs - 1) / bs).
+      assert (Hc : c * bs >= d /\ (c - 1) * bs < d /\ 1 <= c).
+      { pose proof (Nat.div_mod (d + bs - 1) bs ltac:(lia)) as E. fold c in E.
+        pose proof (Nat.mod_upper_bound (d + bs - 1) bs ltac:(lia)) as R. subst d. nia. }
+      replace (N.of_nat n) with (N.of_nat d + N.of_nat (bs - pos))%N by (subst d; lia).
+      split; intros H.
+      + assert ((nb + N.of_nat c) * N.of_nat bs <= L * N.of_nat bs)%N by (apply N.mul_le_mono_r; auto). nia.
+      + destruct (N.le_gt_cases (nb + N.of_nat c) L) as [|Hgt2]; auto. exfalso.
+        assert (L * N.of_nat bs <= (nb + N.of_nat (c - 1)) * N.of_nat bs)%N by (apply N.mul_le_mono_r; lia). nia.
+  Qed.
+
+  (* ================= C10: seek and position ================= *)
+  Hypothesis set_at : forall nb blk, sc_set_pos K (at_block nb) blk = at_block blk.
+  Hypothesis pos_at : forall nb, upto nb -> sc_get_pos K (at_block nb) = nb.
+
+  Theorem try_seek_spec t nb wst p blk byte : WInv nb wst ->
+    into_block_byte t (sc_ctr_bits K) p bs = Ok (blk, byte) ->
+    (byte = 0 -> upto blk) -> (byte <> 0 -> below blk) ->
+    exists wst', try_seek K t wst p = Ok wst' /\
+                 WInv (if Nat.eqb byte 0 then blk else (blk + 1)%N) wst' /\
+                 wr_pos wst' = (if byte =? 0 then bs else byte).
+  Proof.
+    intros (Hc & Hu & Hp & Hl & Hb) Hbb H0 H1. unfold try_seek. fold bs. rewrite Hbb. cbn [obind].
+    assert (Hbyte : byte < bs).
+    { unfold into_block_byte in Hbb. destruct (_ || _); [discriminate|].
+      destruct (Nat.leb_spec bs (Z.to_nat ((Z.rem p (Z.of_nat bs)) mod 256))); [discriminate|].
+      injection Hbb as _ <-. auto. }
+    rewrite Hc, set_at. destruct (Nat.eqb_spec byte 0) as [->|Hne]; cbn [negb].
+    - eexists. split; [reflexivity|]. split; [|reflexivity]. unfold WInv. cbn [wr_core wr_buf wr_pos].
+      repeat split; auto; lia.
+    - unfold write_ks_block. rewrite gen_at by auto. eexists. split; [reflexivity|]. split; [|reflexivity].
+      unfold WInv. cbn [wr_core wr_buf wr_pos]. repeat split; auto; try lia.
+      + unfold below, upto in *. destruct limit; auto. specialize (H1 Hne). lia.
+      + replace (blk + 1 - 1)%N with blk by lia. reflexivity.
+  Qed.
+
+  (* a target whose block index the counter type cannot hold is refused, and nothing changes *)
+  Theorem try_seek_err t wst p : into_block_byte t (sc_ctr_bits K) p bs = Err -> try_seek K t wst p = Err.
+  Proof. clear par_at. intros H. unfold try_seek. fold bs. now rewrite H. Qed.
+
+  (* the byte offset a position stands for *)
+  Definition byte_pos (nb : N) (pos : nat) : Z := (Z.of_N nb * Z.of_nat bs - Z.of_nat (bs - pos))%Z.
+
+  Lemma seek_byte_pos t p blk byte : bs < 256 -> (0 <= p)%Z ->
+    into_block_byte t (sc_ctr_bits K) p bs = Ok (blk, byte) ->
+    byte_pos (if Nat.eqb byte 0 then blk else (blk + 1)%N) (if byte =? 0 then bs else byte) = p.
+  Proof. clear par_at.
+    intros Hbs Hp0 Hbb. unfold into_block_byte in Hbb.
+    destruct (_ || _) eqn:Eb; [discriminate|]. apply orb_false_iff in Eb. destruct Eb as [Eb1 _].
+    destruct (Nat.leb_spec bs (Z.to_nat ((Z.rem p (Z.of_nat bs)) mod 256))) as [|Hlt]; [discriminate|].
+    injection Hbb as <- <-.
+    rewrite Z.rem_mod_nonneg, Z.quot_div_nonneg in * by lia.
+    assert (Hm : (0 <= p mod Z.of_nat bs < Z.of_nat bs)%Z) by (apply Z.mod_pos_bound; lia).
+    rewrite (Z.mod_small (p mod Z.of_nat bs) 256) in * by lia.
+    pose proof (Z.div_mod p (Z.of_nat bs) ltac:(lia)) as E.
+    assert (Hq : (0 <= p / Z.of_nat bs)%Z) by (apply Z.div_pos; lia).
+    unfold byte_pos. destruct (Nat.eqb_spec (Z.to_nat (p mod Z.of_nat bs)) 0) as [E0|E0].
+    - rewrite Z2N.id by lia. replace (bs - bs) with 0 by lia. assert (p mod Z.of_nat bs = 0)%Z by lia. lia.
+    - rewrite N2Z.inj_add, Z2N.id by lia.
+      replace (Z.of_nat (bs - Z.to_nat (p mod Z.of_nat bs))) with (Z.of_nat bs - p mod Z.of_nat bs)%Z by lia. lia.
+  Qed.
+
+  (* the reported position: the byte offset, or an error when the type cannot hold it *)
+  Theorem try_current_pos_spec t nb wst : WInv nb wst ->
+    match try_current_pos K t wst with
+    | Ok r => r = byte_pos nb (wr_pos wst)
+    | Err => True
+    | Panic => False
+    end /\
+    ((sn_max t < byte_pos nb (wr_pos wst))%Z -> try_current_pos K t wst = Err).
+  Proof.
+    intros (Hc & Hu & Hp & Hl & Hb). unfold try_current_pos, from_block_byte, byte_pos. fold bs. rewrite Hc, pos_at by auto.
+    destruct (Nat.ltb_spec bs (wr_pos wst)); [lia|].
+    destruct (Z.ltb_spec (sn_max t) (Z.of_N nb)).
+    { split; auto. }
+    destruct (Z.ltb_spec (sn_max t) (Z.of_N nb * Z.of_nat bs)).
+    { split; auto. }
+    destruct (Z.ltb_spec (Z.of_N nb * Z.of_nat bs - Z.of_nat (bs - wr_pos wst)) (sn_min t)); split; auto; intros; lia.
+  Qed.
+
+
+  (* ================= no reuse: which keystream byte each output byte is xored with ================= *)
+  Fixpoint cells_at (n : nat) (nb : N) (pos : nat) : list (N * nat) :=
+    match n with
+    | O => []
+    | S n' => if pos <? bs then ((nb - 1)%N, pos) :: cells_at n' nb (S pos)
+              else (nb, 0) :: cells_at n' (nb + 1)%N 1
+    end.
+
+  Lemma take_cells n : forall nb pos, take n nb pos = map (fun c => nth (snd c) (KB (fst c)) 0%N) (cells_at n nb pos).
+  Proof. clear par_at. induction n as [|n IH]; intros nb pos; [reflexivity|]. cbn [take cells_at].
+    destruct (pos <? bs); cbn [map fst snd]; now rewrite IH. Qed.
+
+  (* every keystream byte used by a request that fits lies in a block below the limit, at an offset
+     inside the block; and the k-th byte of the request uses the cell of byte position q + k *)
+  Lemma cells_below n : forall nb pos L, limit = Some L -> 1 <= pos <= bs -> (pos < bs -> (1 <= nb)%N) ->
+    (nb + N.of_nat (cbr n pos) <= L)%N ->
+    Forall (fun c => (fst c < L)%N /\ snd c < bs) (cells_at n nb pos).
+  Proof. clear par_at.
+    induction n as [|n IH]; intros nb pos L HL Hp Hnb Hfit; [constructor|].
+    cbn [cells_at cbr] in *. destruct (Nat.ltb_spec pos bs) as [Hlt|Hge].
+    - constructor; [cbn [fst snd]; split; [specialize (Hnb Hlt); lia | lia]|].
+      apply IH; auto; try lia.
+    - constructor; [cbn [fst snd]; split; lia|].
+      apply IH; auto; try lia.
+  Qed.
+
+  Lemma cells_byte_pos n : forall nb pos k c, 1 <= pos <= bs -> (pos < bs -> (1 <= nb)%N) ->
+    nth_error (cells_at n nb pos) k = Some c ->
+    (Z.of_N (fst c) * Z.of_nat bs + Z.of_nat (snd c) = byte_pos nb pos + Z.of_nat k)%Z.
+  Proof. clear par_at.
+    unfold byte_pos. induction n as [|n IH]; intros nb pos k c Hp Hnb Hk; [destruct k; discriminate|].
+    cbn [cells_at] in Hk. destruct (Nat.ltb_spec pos bs) as [Hlt|Hge].
+    - destruct k as [|k]; cbn [nth_error] in Hk.
+      + injection Hk as <-. cbn [fst snd]. specialize (Hnb Hlt). rewrite N2Z.inj_sub by lia. nia.
+      + apply IH in Hk; auto; lia.
+    - destruct k as [|k]; cbn [nth_error] in Hk.
+      + injection Hk as <-. cbn [fst snd]. replace (bs - pos) with 0 by lia. lia.
+      + apply IH in Hk; auto; try lia.
+        all: try (rewrite N2Z.inj_add in Hk; replace (bs - pos) with 0 by lia; nia).
+  Qed.
+
 End Refine.
